@@ -25,7 +25,7 @@ impl Check for C02 {
         parse_case_strategy_mode(tier_params(tier, GenParams::ll()), false, 8, true)
     }
     fn cases(&self, tier: Tier) -> u32 {
-        tier.pick(8000, 150000)
+        tier.pick(16000, 300000)
     }
     fn run(&self, case: &ParseCase, st: &mut Stats) -> Verdict {
         let opts = Opts { max_k: case.max_k, ..Opts::default() };
